@@ -88,6 +88,58 @@ def leg_binstream(chk, tier):
             dev=b["dev"] or None)
 
 
+def leg_msgpack_docs(chk, tier):
+    """The same MsgPack bytes (valid, truncated, corrupted) through the string reader and through every stream kind at the
+    8-byte and the real 256-byte window, with paddings that move the document across window boundaries.  Where the spec
+    prescribes the outcome both must equal it; where it is unspecified the outcomes must still be pairwise equal."""
+    from checks import mpcommon as mp
+    quick = tier == "quick"
+    sc = mp.gen("MC_LoadScript", {"Mode": '"typed"', "MaxOps": 1 if quick else 3, "Widths": "{0, 4}" if quick else "{0, 2, 4, 5}", "Pads": "{0}",
+                                  "TypedTargets": '{"i32", "str", "f32", "vec_u8", "tp_ns", "objscope"}' if quick else "{}"},
+                ["Export"], "c10-typed", chk, timeout=3000, xmx="8g")
+    pairs = mp.replay(sc, mp.MEDIA_SEEKABLE + ["nonseek"], 8, "d8")
+    sf = mp.gen("MC_LoadScript", {"Mode": '"fields"', "MaxOps": 1, "Widths": "{0}", "Pads": mp.tla_set([248, 251, 254] if quick else range(240, 262))},
+                ["Export"], "c10-fields256", chk, timeout=3000, xmx="8g")
+    pairs += mp.replay(sf, ["mem", "sstream", "short64", "nonseek"], 256, "d256")
+    # the property is an equivalence: every stream run must give the outcome of the memory run on the same bytes
+    # (same exception category, and when both complete the same events); absolute correctness is decided by C07
+    by = {}
+    for s, o in pairs:
+        by.setdefault(id(s), (s, []))[1].append(o)
+    for s, obs in by.values():
+        mem = [o for o in obs if o["medium"] == "mem"]
+        if not mem or "e" in mem[0]:
+            continue
+        for o in obs:
+            if o["medium"] == "mem" or "e" in o:
+                continue
+            same = o["exc"] == mem[0]["exc"] and (o["exc"] != ["none"] or o["ev"] == mem[0]["ev"])
+            if not same:
+                dev = "Dev_NonSeekableStream" if (o["medium"] == "nonseek" and o.get("refused")) else None
+                chk.fail("memory and %s loading differ (window %d): %s vs %s" % (o["medium"], o["chunk"], json.dumps(mem[0]["exc"]), json.dumps(o["exc"])),
+                         {"scenario": {k: s[k] for k in ("doc", "root", "pol")}, "memory": mem[0], "stream": o}, dev=dev)
+    chk.add_cases(len(pairs), distinct_keys=(("docs", json.dumps(s["doc"]), json.dumps(s["root"]), json.dumps(s["pol"])) for s in sc + sf), validated=len(pairs))
+
+
+def leg_save_identity(chk, tier):
+    """Saving to a stream (UTF-8, no BOM) yields exactly the bytes of saving to memory: MsgPack and JSON writers."""
+    from checks import mpcommon as mp
+    from checks import jsoncommon as jc
+    quick = tier == "quick"
+    cfg = mp.write_cfg("mc_save_c10.cfg", "SPECIFICATION Spec\nCONSTANT MaxMembers = %d\nINVARIANTS EncoderConsistent Export\n" % (1 if quick else 3))
+    r = vlib.tlc("MC_SaveScript", cfg=cfg, timeout=3000, xmx="6g")
+    chk.add_tlc("MC_SaveScript (save identity)", r)
+    rows = [{"id": "sv%d" % i, "root": s["root"]} for i, s in enumerate(r.printed("GEN"))]
+    sp = os.path.join(vlib.scratch(), "save_c10.ndjson")
+    vlib.write_ndjson(sp, rows)
+    obs = vlib.run_resumable([mp.harness(256), "save", sp], timeout=1800)
+    for o in obs:
+        if "e" in o or o["mem"] != o["stream"] or o["excmem"] != o["excstream"]:
+            chk.fail("MsgPack save: memory and stream output differ", {"scenario": rows[o["run"]], "observed": o})
+    chk.add_cases(len(rows), distinct_keys=(("save", json.dumps(x["root"])) for x in rows), validated=len(rows))
+    jc.save_leg(chk, tier, label="json-save-identity")
+
+
 def run_check(tier):
     chk = Check("C10", tier)
     chk.cov["rule"] = ("cases = call sequences on CBinaryStreamReader (TLC path-mode behaviours x stream kinds, plus seeded random "
@@ -95,6 +147,8 @@ def run_check(tier):
     chk.assumptions += ["libstdc++ istream semantics as modelled in BinStreamReader.tla (validated: M-state equality after every call)",
                         "stream kinds are the harness test doubles: stringstream, short-read (1/3/64 bytes per underflow), non-seekable"]
     leg_binstream(chk, tier)
+    leg_msgpack_docs(chk, tier)
+    leg_save_identity(chk, tier)
     return chk.finish()
 
 
